@@ -167,6 +167,8 @@ class World:
                 continue
             if fn.returns is None:
                 continue
+            if fname in self.specs:
+                raise OutOfReach('duplicate spec function name %s (in %s)' % (fname, modname))
             pk = [kind_of_annotation(a.annotation) for a in fn.args.args]
             rk = kind_of_annotation(fn.returns)
             sorts = [self.sorts.sort_of(k) for k in pk] + [self.sorts.sort_of(rk)]
@@ -180,6 +182,26 @@ class World:
             self.specs[fname] = SpecFnV(fname, decl, pk, rk)
             self.spec_defs[fname] = (mi, fn)
         return mi
+
+    def map_fn(self, fname):
+        """z3 recursive function map_<f>(l, extras...) = [f(x, extras...) for x in l] (generated)."""
+        key = 'map_' + fname
+        if key in self.specs:
+            return self.specs[key]
+        sf = self.specs[fname]
+        pk = [('seq', sf.pkinds[0])] + list(sf.pkinds[1:])
+        rk = ('seq', sf.rkind)
+        sorts = [self.sorts.sort_of(k) for k in pk] + [self.sorts.sort_of(rk)]
+        decl = z3.RecFunction(key, *sorts)
+        consts = [z3.Const('%s?%d' % (key, i), s) for i, s in enumerate(sorts[:-1])]
+        l = consts[0]
+        n = z3.Length(l)
+        body = z3.If(n == 0, z3.Empty(sorts[-1]),
+                     z3.Concat(z3.Unit(sf.decl(l[0], *consts[1:])), decl(z3.SubSeq(l, 1, n - 1), *consts[1:])))
+        z3.RecAddDefinition(decl, consts, body)
+        self.specs[key] = SpecFnV(key, decl, pk, rk)
+        self.spec_defined.add(key)
+        return self.specs[key]
 
     def define_specs(self):
         from .interp import define_spec
